@@ -42,6 +42,14 @@ def base_cases(rng, tier):
     ]:
         new.append(dict(api="new", rw=2, rh=2, frames=frames, loops=loops, cache=cache, pad=pad,
                         cols=7, rows=5, tty=tty, r0=0, animate=True, hide_cursor=hide, echo_input=echo))
+    # an ANIMATED renderable drawn as a still (animate=False): a still draw of its current frame -
+    # Ctrl-C propagates like for any still image (only real animations end silently)
+    new.append(dict(api="new", rw=2, rh=2, frames=3, loops=1, cache=False, seek=1,
+                    pad={"kind": "exact", "l": 1, "t": 0, "r": 0, "b": 1}, cols=7, rows=5, tty=True,
+                    r0=0, animate=False, hide_cursor=True, echo_input=False))
+    new.append(dict(api="new", rw=2, rh=1, frames=2, loops=1, cache=False,
+                    pad={"kind": "exact", "l": 0, "t": 0, "r": 0, "b": 0}, cols=7, rows=5, tty=False,
+                    r0=0, animate=False, hide_cursor=True, echo_input=True))
     # initial terminal attribute sets other than "canonical with echo": draw() must put back
     # exactly what it found
     for mode in ("noecho", "raw", "cbreak05"):
